@@ -285,8 +285,8 @@ def _avoiding_prefix(draw, alphabet, pats, length):
 @st.composite
 def applicable_case(draw, tier="quick"):
     """(class, strategy) drawn together so that the strategy applies."""
-    kind = draw(st.sampled_from(["Expand", "Expand", "Peel", "Peel", "Peel", "Factor", "Factor", "SplitAtom", "Reduce", "StatXf", "StatPerm", "LetterSwap"]))
-    k = draw(st.sampled_from([1, 2, 2, 2, 3])) if kind not in ("LetterSwap", "Factor") else draw(st.sampled_from([2, 2, 3]))
+    kind = draw(st.sampled_from(["Expand", "Expand", "Peel", "Peel", "Peel", "Factor", "Factor", "Shuffle", "SplitAtom", "Reduce", "StatXf", "StatPerm", "LetterSwap"]))
+    k = draw(st.sampled_from([1, 2, 2, 2, 3])) if kind not in ("LetterSwap", "Factor", "Shuffle") else draw(st.sampled_from([2, 2, 3]))
     alphabet = "abc"[:k]
     npat = draw(st.sampled_from([0, 1, 1, 2, 2, 3]))
     pats = draw(st.lists(gen.words(alphabet, 1, 3), min_size=npat, max_size=npat, unique=True))
@@ -300,6 +300,11 @@ def applicable_case(draw, tier="quick"):
         prefix = _avoiding_prefix(draw, alphabet, pats, draw(st.integers(m, m + 2)))
         strict = int(draw(st.integers(0, 4)) == 0)
         sdesc = draw(gen.peel_desc())
+    elif kind == "Shuffle":
+        # a strategy with its own constructor whose backward map is multi-valued
+        pats, prefix = [], ""
+        sdesc = ["Shuffle", {"cut": draw(st.integers(0, 1)), "swap": draw(st.booleans()),
+                             "xf_left": draw(st.sampled_from(gen.XF)), "xf_right": draw(st.sampled_from(gen.XF))}]
     elif kind == "Factor":
         sdesc = draw(gen.factor_desc())
         cut = 1 + sdesc[1]["cut"] % (k - 1)
@@ -348,7 +353,7 @@ def applicable_case(draw, tier="quick"):
         sdesc = ["LetterSwap", {"shift": draw(st.integers(1, k - 1)), "swap": k >= 3 and draw(st.booleans())}]
     if strict and all(any(p in prefix + a for p in pats) for a in alphabet):
         strict = 0
-    if kind == "Factor" and draw(st.integers(0, 2)) == 0:
+    if kind in ("Factor", "Shuffle") and draw(st.integers(0, 2)) == 0:
         letters = list(alphabet)
         stats = [draw(st.sampled_from(letters)), draw(st.sampled_from(letters))] + stats[:1]
         for key in ("xf_left", "xf_right"):
